@@ -8,6 +8,7 @@ Scenarios
             return the old or the new answer, but every later lookup must return the new one
   stale-pre the mutation happens BEFORE the answer is computed: the answer must be the new one, and stay
   leak      a factory / `_uncached_lookup` that raises, an unhashable `provided`: reference counts stay put
+  leak3     the uncached callback raises on every miss: reference counts of the arguments must not grow
   lazyreq   `required` is a lazy iterable that mutates the registry while it is being turned into a tuple
   descr     a `__providedBy__` descriptor that mutates the registry during queryAdapter
   pychanged a specification whose `unsubscribe` performs a lookup while `changed()` iterates its bookkeeping
@@ -982,6 +983,38 @@ def run(lines, out, args):
                 r1 = (sys.getrefcount(bad_factory), sys.getrefcount(req), sys.getrefcount(IR), sys.getrefcount(ob))
                 if any(b - a > 5 for a, b in zip(r0, r1)):
                     got = "FAIL: reference counts grew over 300 failing %s calls: %r -> %r (factory, required, interface, object)" % (ep, r0, r1)
+            elif scen == "leak3":
+                # the UNCACHED callback itself raises on a cache miss (seeded change o11a: the error branch of the C `_subscriptions` kept the
+                # tuple made from `required`): nothing the failed call built or borrowed may stay referenced
+                class Boom3(Exception):
+                    pass
+
+                def hook3(kind, lk, compute):
+                    raise Boom3()
+                reg = mkreg(flavour, hook3)
+                req3, reql3 = (IR,), [IR]
+
+                def once3():
+                    for r_ in (req3, reql3):
+                        try:
+                            if ep == "lookupAll":
+                                reg.lookupAll(r_, IP)
+                            elif ep == "subscriptions":
+                                reg.subscriptions(r_, IP)
+                            else:
+                                reg.lookup(r_, IP, "")
+                        except Boom3:
+                            pass
+                for _ in range(5):
+                    once3()
+                gc.collect()
+                r0 = (sys.getrefcount(req3), sys.getrefcount(IR), sys.getrefcount(IP))
+                for _ in range(300):
+                    once3()
+                gc.collect()
+                r1 = (sys.getrefcount(req3), sys.getrefcount(IR), sys.getrefcount(IP))
+                if any(b_ - a_ > 5 for a_, b_ in zip(r0, r1)):
+                    got = "FAIL: reference counts grew over 600 %s calls whose uncached callback raises: %r -> %r (required tuple, required interface, provided)" % (ep, r0, r1)
             elif scen == "lazyreq":
                 reg = mkreg(flavour, lambda kind, lk, compute: compute())
                 reg.register((IR,), IP, "", fac1)
